@@ -129,7 +129,9 @@ InfTermPQ(a, b) == \E x \in DOMAIN a : a[x] > 0 /\ b[x] = 0          \* -p ln 0 
 EntTol(e) == 16 * (Len(e.a) + 2)                                      \* n * 2^-18 in units of 2^-20 / ... see below
 (* finite results are compared in units of 2^-20 * 2^-m: resq has qe fractional bits *)
 EntClose(e, resq, expected) ==      \* expected: integer in units of 2^-(20+m)
-    LET sc == Pw(2, 20 - e.qe) IN Abs(resq * sc * Pw(2, e.m) - expected) <= (Len(e.a) + 2) * (4 * Pw(2, e.m) + sc * Pw(2, e.m))
+    LET sc == Pw(2, 20 - e.qe) IN
+    IF Abs(resq) > 2147483647 \div (sc * Pw(2, e.m)) THEN FALSE              \* too large to be evaluated, hence not close
+    ELSE Abs(resq * sc * Pw(2, e.m) - expected) <= (Len(e.a) + 2) * (4 * Pw(2, e.m) + sc * Pw(2, e.m))
 (* elements of p far into the subnormal range (ax > 0): their terms are zero at any resolution, but they are not zeros of p *)
 A0(e) == [x \in DOMAIN e.a |-> IF e.ax[x] > 0 THEN 0 ELSE e.a[x]]
 NoTiny(e) == (\A x \in DOMAIN e.bx : e.bx[x] = 0) /\ (\A x \in DOMAIN e.ax : e.ax[x] = 0)
